@@ -89,6 +89,9 @@ def run(ctx):
         hs3 = [h for h in hs if len(h["calls"]) == 3]
         replay(ctx, hs3, tiny, ["kepler", "sgp4", "cw", "ephem"])
         replay(ctx, rnd.sample(hs3, min(len(hs3), 300)), tiny, ["keplernum"])
+    # ---- the repository's own test-suite, trace-validated (SuiteTrace.tla / RoutingTrace.tla) -----------------------------
+    from checks import suite
+    suite.run(ctx, "C08", "iter")
     ctx.exhaustive = False
     ctx.assumptions += [
         "states are compared with a direct propagation from a fresh copy: 1e-9 relative for analytical propagators, "
